@@ -26,6 +26,14 @@ class CallMixin:
         # 1. contract by source text
         c = self.find_contract_text(text)
         if c is not None:
+            # the callee expression is not evaluated for a text contract, but its root name must be bound
+            root = e.func
+            while isinstance(root, (ast.Attribute, ast.Subscript, ast.Call)):
+                root = root.value if not isinstance(root, ast.Call) else root.func
+            if isinstance(root, ast.Name) and root.id not in st.env:
+                r = self.ev_Name(root, st, exc, None)
+                if not r:
+                    return []
             return self.call_with_contract(c, e, st, exc, None, expect)
         # 2. logging / tracing: no effect, no exception
         if LOGGING_CALLS.match(text):
